@@ -263,6 +263,10 @@ loop:
 
 	c = b[0]
 
+	// hf is reused from field to field; only a never-indexed literal is
+	// sensitive.
+	hf.sensible = false
+
 	switch {
 	// Indexed Header Field.
 	// The value must be indexed in the static or the dynamic table.
